@@ -254,10 +254,34 @@ def _verdict_of(body, conds):
         if key is None:
             continue
         by_place.setdefault(key, []).append(c)
+    # `if let Some(is_sat) = status { if is_sat { .. } }`: a bool local that is a copy of the payload of a verdict place
+    payload_of = {}
+    for c in conds:
+        if c.is_discr or c.place["p"] or body.local_ty(c.place["l"]) != "bool":
+            continue
+        l = c.place["l"]
+        for _ in range(4):
+            ds = body.defs.get(l, [])
+            if len(ds) != 1 or ds[0].si is None or ds[0].node["k"] != "assign" or ds[0].node["rv"]["k"] != "use":
+                break
+            q = op_place(ds[0].node["rv"]["ops"][0])
+            if q is None:
+                break
+            if q["p"]:
+                for key in list(by_place):
+                    kl = key if not isinstance(key, tuple) else key[0]
+                    if q["l"] == kl and "core::option::Option<bool>" in place_ty(body, {"l": q["l"], "p": q["p"][: (0 if not isinstance(key, tuple) else len(key[1]))]}):
+                        payload_of[id(c)] = key
+                break
+            l = q["l"]
+    for c in conds:
+        if id(c) in payload_of:
+            by_place[payload_of[id(c)]].append(c)
+            plen[id(c)] = -1
     res = {}
     for key, cs in by_place.items():
-        is_some = any(c.is_discr and not c.negated and c.values == ["1"] for c in cs)
-        is_none = any(c.is_discr and not c.negated and c.values == ["0"] for c in cs)
+        is_some = any(c.is_discr and ((not c.negated and c.values == ["1"]) or (c.negated and c.values == ["0"])) for c in cs)
+        is_none = any(c.is_discr and ((not c.negated and c.values == ["0"]) or (c.negated and c.values == ["1"])) for c in cs)
         val_true = any((not c.is_discr) and len(c.place["p"]) > plen[id(c)] and c.is_true() for c in cs)
         val_false = any((not c.is_discr) and len(c.place["p"]) > plen[id(c)] and c.is_false() for c in cs)
         if is_none:
@@ -1162,6 +1186,12 @@ def rule_model_width(ctx):
                                 # a push inside a loop: the bound of the loop
                                 for h in mb.in_loop(ms.bb):
                                     blocks = dict(mb.loops())[h]
+                                    from ..core import switch_sites as _sws
+
+                                    for sw in _sws(mb):
+                                        if sw.bb in blocks and any(t not in blocks for t in [bb for _, bb in sw.node["targets"]] + ([sw.node["otherwise"]] if sw.node.get("otherwise") is not None else [])):
+                                            # `while var <= n { values.push(..) }`: what the exit test compares
+                                            m_roots |= _quantity_roots(prog, mb, sw.node["discr"])
                                     for nx in mb.calls():
                                         if nx.bb in blocks and callee_decl(callee_of(nx)) == "core::iter::traits::iterator::Iterator::next":
                                             m_roots |= _quantity_roots(prog, mb, nx.node["args"][0])
